@@ -235,6 +235,7 @@ class Harness:
         self.memoized = set()
         self.in_wakeup = False
         self.preempted = []                      # (where, component, index of the trace entry of the injected kill)
+        self.drift = []                          # edges of the real graph that differ from the shape's (see check_edges)
         self.crash = None
         self.externals = []
         self.shape_name = shape_name
@@ -259,7 +260,7 @@ class Harness:
 
     # ---- names ----
     def ref(self, node):
-        return "stage%d.%s" % (node["stage"], node["node"])
+        return SS.node_ref(node)
 
     # ---- events / snapshots ----
     def snapshot(self):
@@ -381,7 +382,9 @@ class Harness:
             preds = sorted(graph.predecessors(r))
             mine = sorted(x for x in (self.ref(byname[p]) for p in n["prods"]) if x in present)
             if preds != mine:
-                raise RuntimeError("shape edge drift for %s: %s vs %s" % (n["node"], preds, mine))
+                # recorded, the run goes on: if the real graph lost (or gained) an edge the controller schedules differently
+                # from the specification, which trace validation reports; a drift without any violation is a machinery error
+                self.drift.append("edges into %s: real graph %s, shape %s" % (r, preds, mine))
 
     def dowhile_experiment(self):
         """A real package with a DoWhile document (conf/flowir_package.yaml + conf/dowhile.yaml) and an instance of it, as
